@@ -12,17 +12,21 @@ from . import c07
 PROPERTY = 'C08'
 EXPLANATION = (
     'Decided from source: (C08.1) every annotated parameter of every validated registered function resolves to a '
-    'coercing alias that is a key of the cast table (Tuple[...]/Union[...] unfolded); a bare value class is not '
-    'converted by validate_args; unannotated parameters are a frozen table; (C08.2) the cast table maps each alias to '
-    'the cast of its own class; (C08.3) conversion totality: every value class x {Number, Text, Boolean} resolves through '
-    'the MRO to a conversion that does not raise NotImplementedError, native types are registered; blank/boolean '
-    'number values; arithmetic dunders convert both operands with Number.cast; (C08.4) the function name flows from '
-    'the token to the namespace lookup through upper-casing and exact removal of the "_XLFN." prefix (accepted idioms '
-    'enumerated), all registered names are upper case; (C08.5) registration writes the module-level table under the '
-    'function\'s name and every evaluator copies the table in its constructor body; (C08.6) every module that registers '
-    'functions is imported by the package; (C08.7) the wrapper preserves the signature (functools.wraps), arguments are '
-    'bound by signature.'
-    ' (C08.5) also: two evaluators constructed (constructor interpreted as written, one world) around a registration: the later one sees the new function, no two evaluators share a table object.')
+    'coercing alias that is a key of the cast table; a bare value class is not converted by validate_args (known '
+    'finding F15); (C08.2) the cast table maps each alias to the cast of its own class, and _validate interpreted '
+    'as written turns witness values into the class of the alias (numeric text -> number, number -> text, 0 -> '
+    'FALSE, natives -> their class); (C08.3) conversion totality over value classes x targets, native types '
+    'registered, blank/boolean number values, and the arithmetic special methods compute on converted operands for '
+    'every pair of operand kinds; (C08.4) function-name canonicalisation on witness spellings (case, _xlfn. '
+    'prefix); (C08.5) registration writes the module-level table; two evaluators constructed (constructor '
+    'interpreted, one world) around a registration: the later one sees the new function, no two evaluators share a '
+    'table object; (C08.6) every module that registers functions is imported by the package; (C08.7) the wrapper '
+    'preserves the signature; (C08.8) =A/B through OP_DIV with a divisor that converts to zero (0, 0.0, "0", "0.0", '
+    '"0e0", FALSE, blank) gives #DIV/0!; (C08.9) every registered function whose parameters are all declared '
+    'numeric, called the way the evaluator calls it: int, float, Number, numeric text plain / decimal / scientific, '
+    'TRUE for 1, FALSE and blank for 0 give the same outcome at every position, non-numeric text gives #VALUE! '
+    '(numpy on floats by IEEE semantics); (C08.10) + - * / and & on every ordered pair of scalar operand kinds '
+    'against the reference ("3"+1=4, TRUE+1=2, blank+1=1, #VALUE!, #DIV/0!, text forms joined).')
 NOT_DECIDED = 'equality of results across spellings at the value level'
 TRUSTED = ['typing.NewType/Union semantics of the annotation aliases', 'functools.wraps makes inspect.signature see the wrapped signature']
 
